@@ -642,7 +642,7 @@ def run(rep: C.Report) -> None:
                 "^fn_|^sw_": dict(name="Ob3 #if / #ifeq / #switch follow the ParserFunctions rules", functions=["parserfns.py:if_fn", "parserfns.py:ifeq_fn", "parserfns.py:switch_fn"], bounds=f"#if/#ifeq: 0..4 arguments <= 2 symbolic chars, with the identity expander and with an expander whose results are padded with blanks; #switch: every case skeleton of 1..{2 if quick else 3} items over {{k=v, fall-through, #default=v, #default}} with symbolic keys and value, plus {'the 3-item skeletons that start with a fall-through case and three 4-item groups' if quick else 'four longer fall-through groups'}"),
                 "^autonewline": dict(name="Ob4 automatic newline before list/table markers", functions=["common.py:add_newline_to_expansion"], bounds="t <= 3 symbolic chars (full Unicode)"),
             },
-            timeout=90 if quick else 400,
+            timeout=180 if quick else 400,
             src=src,
             batch=4,
             twins=False,
